@@ -48,7 +48,7 @@ func dumpFSM(repo, fnName string) {
 	for _, t := range res.grouped(res.trans) {
 		to := res.name(t.To)
 		if t.Exit != "" {
-			to = "RETURN " + e.setName(errTypeOf(spec.fn), t.Verd) + " (state " + res.name(t.To) + ")"
+			to = "RETURN " + e.setName(errTypeOf(spec.fn), t.Verd) + " offs=" + t.RetOffs + " (state " + res.name(t.To) + ")"
 		}
 		fmt.Printf("  %-22s %-28s -> %-40s calls=%v conds=%v locals=%v stores=%v\n", res.name(t.From), t.Bytes.String(), to, t.Calls, t.Conds, t.Locals, t.Stores)
 	}
